@@ -93,11 +93,13 @@ def rand_script(rng, n, user):
             if phase == "live":
                 known_c.add(c)
         elif choice < 0.35:
-            cs = [c for c, e in tc.items() if e["st"] in ("LAUNCHED", "EXTENDED") and len(e["path"]) < 3]
+            cs = [c for c, e in tc.items() if e["st"] in ("LAUNCHED", "EXTENDED", "BUILT") and len(e["path"]) < 3]
             if not cs:
                 continue
             c = rng.choice(cs)
             ev = dict(tc[c], st="EXTENDED", path=tc[c]["path"] + [rng.choice(["r1", "r2", "rX"])])
+            if tc[c]["st"] == "BUILT":
+                ev["pur"] = rng.choice(["GENERAL", "HS_CLIENT_REND"])      # a built circuit being cannibalised
             tc[c] = ev
             script.append(dict(a="Extend", ev=ev))
         elif choice < 0.45:
